@@ -194,6 +194,8 @@ def execute(op):
 
 
 def main():
+    if hasattr(sys, "set_int_max_str_digits"):
+        sys.set_int_max_str_digits(0)
     build = os.environ["VSIM_BUILD_DIR"]
     cfg = json.loads(os.environ.get("VSIM_REPLICA_CFG", "{}"))
     seams.install(build, proxy_native=False)
